@@ -1,8 +1,271 @@
-//! Independent CPC payload decompressor (placeholder until the table hook lands):
-//! returns None when payload decoding is not available.
+//! Independent CPC payload decompressor, written from the algorithm description (FM85 /
+//! CPC compression: Huffman-coded window bytes per pseudo-phase, pairs as length-limited-unary
+//! x-delta + Golomb y-delta, Pinned pairs shifted by 8 columns, Sliding pairs rotated and
+//! permuted by phase). It shares NO code with the library's reader. The code TABLES cannot be
+//! re-derived offline: the ENCODING tables are obtained through the hook
+//! `datasketches::cpc::verif_cpc_tables()` and are a trusted input whose self-consistency is
+//! checked (prefix-free, <= 12 bits, permutations are bijections).
 
 use crate::obs::CpcPreamble;
+use std::sync::OnceLock;
 
-pub fn decode_matrix(_img: &[u8], _p: &CpcPreamble) -> Option<Result<Vec<u64>, String>> {
-    None
+struct Tables {
+    /// for each pseudo-phase: (code, len) -> byte, as a 4096-entry peek table built from the
+    /// ENCODING table by this module
+    byte_dec: Vec<Vec<(u8, u8)>>,
+    /// x-delta: 4096-entry peek table
+    unary_dec: Vec<(u8, u8)>,
+    /// inverse of the encoding column permutation per phase
+    perm_inv: Vec<[u8; 56]>,
+    pub problems: Vec<String>,
+}
+
+fn build_peek(codes: &[(u16, u8)], what: &str, problems: &mut Vec<String>) -> Vec<(u8, u8)> {
+    // codes[sym] = (code value, code length); bits are emitted LSB first
+    let mut t = vec![(0u8, 0u8); 4096];
+    let mut filled = vec![false; 4096];
+    for (sym, &(code, len)) in codes.iter().enumerate() {
+        if len == 0 || len > 12 {
+            problems.push(format!("{what}: symbol {sym} has code length {len}"));
+            continue;
+        }
+        if (code as u32) >> len != 0 {
+            problems.push(format!("{what}: symbol {sym} code {code:#x} wider than its length {len}"));
+        }
+        let step = 1usize << len;
+        let mut i = code as usize;
+        while i < 4096 {
+            if filled[i] {
+                problems.push(format!("{what}: codes are not prefix-free (symbol {sym})"));
+                break;
+            }
+            filled[i] = true;
+            t[i] = (sym as u8, len);
+            i += step;
+        }
+    }
+    if filled.iter().any(|f| !f) {
+        problems.push(format!("{what}: code is not complete (some 12-bit peeks decode to nothing)"));
+    }
+    t
+}
+
+fn tables() -> &'static Tables {
+    static T: OnceLock<Tables> = OnceLock::new();
+    T.get_or_init(|| {
+        let (unary, bytes, perms) = datasketches::cpc::verif_cpc_tables();
+        let mut problems = vec![];
+        let split = |v: u16| -> (u16, u8) { (v & 0xfff, (v >> 12) as u8) };
+        let unary_codes: Vec<(u16, u8)> = unary.iter().map(|&v| split(v)).collect();
+        let unary_dec = build_peek(&unary_codes, "length-limited unary table", &mut problems);
+        let mut byte_dec = vec![];
+        for (ph, tab) in bytes.iter().enumerate() {
+            let codes: Vec<(u16, u8)> = tab.iter().map(|&v| split(v)).collect();
+            byte_dec.push(build_peek(&codes, &format!("byte table {ph}"), &mut problems));
+        }
+        let mut perm_inv = vec![];
+        for (ph, p) in perms.iter().enumerate() {
+            let mut inv = [255u8; 56];
+            for (i, &c) in p.iter().enumerate() {
+                if c as usize >= 56 || inv[c as usize] != 255 {
+                    problems.push(format!("column permutation {ph} is not a bijection on 0..56"));
+                } else {
+                    inv[c as usize] = i as u8;
+                }
+            }
+            perm_inv.push(inv);
+        }
+        Tables { byte_dec, unary_dec, perm_inv, problems }
+    })
+}
+
+pub fn table_problems() -> Vec<String> {
+    tables().problems.clone()
+}
+
+struct Bits<'a> {
+    words: Vec<u32>,
+    pos: usize,
+    _p: std::marker::PhantomData<&'a ()>,
+}
+
+impl Bits<'_> {
+    fn new(b: &[u8]) -> Self {
+        Bits { words: b.chunks(4).map(|c| u32::from_le_bytes([c[0], *c.get(1).unwrap_or(&0), *c.get(2).unwrap_or(&0), *c.get(3).unwrap_or(&0)])).collect(), pos: 0, _p: std::marker::PhantomData }
+    }
+    fn bit(&self, i: usize) -> Option<u32> {
+        self.words.get(i / 32).map(|w| (w >> (i % 32)) & 1)
+    }
+    /// next 12 bits (missing bits beyond the stream read as zero, like the writer's padding)
+    fn peek12(&self) -> u32 {
+        let mut v = 0;
+        for i in 0..12 {
+            v |= self.bit(self.pos + i).unwrap_or(0) << i;
+        }
+        v
+    }
+    fn take(&mut self, n: u8) -> Result<u64, String> {
+        let mut v = 0u64;
+        for i in 0..n as usize {
+            v |= (self.bit(self.pos + i).ok_or("pair stream ends early")? as u64) << i;
+        }
+        self.pos += n as usize;
+        Ok(v)
+    }
+    fn unary(&mut self) -> Result<u64, String> {
+        let mut n = 0;
+        loop {
+            match self.bit(self.pos) {
+                None => return Err("pair stream ends inside a unary code".into()),
+                Some(1) => {
+                    self.pos += 1;
+                    return Ok(n);
+                }
+                Some(_) => {
+                    n += 1;
+                    self.pos += 1;
+                }
+            }
+        }
+    }
+}
+
+/// Pseudo-phase from the documented thresholds (in exact integer arithmetic).
+fn pseudo_phase(lg_k: u8, c: u64) -> usize {
+    let k = 1u64 << lg_k;
+    if 1000 * c < 2375 * k {
+        if 4 * c < 3 * k {
+            16
+        } else if 10 * c < 11 * k {
+            17
+        } else if 100 * c < 132 * k {
+            18
+        } else if 3 * c < 5 * k {
+            19
+        } else if 1000 * c < 1965 * k {
+            20
+        } else if 1000 * c < 2275 * k {
+            21
+        } else {
+            6
+        }
+    } else {
+        ((c >> (lg_k - 4)) & 15) as usize
+    }
+}
+
+fn golomb_base_bits(k: u64, pairs: u64) -> u8 {
+    // floor(log2((k + pairs - pairs) / pairs)) = floor(log2(k / pairs)), 0 when the quotient is 0
+    let q = k / pairs;
+    if q == 0 { 0 } else { 63 - q.leading_zeros() as u8 }
+}
+
+fn decode_pairs(stream: &[u8], num_pairs: usize, lg_k: u8) -> Result<Vec<(u32, u8)>, String> {
+    let t = tables();
+    let k = 1u64 << lg_k;
+    let b = golomb_base_bits(k, num_pairs as u64);
+    let mut bits = Bits::new(stream);
+    let mut out = Vec::with_capacity(num_pairs);
+    let mut row = 0u64;
+    let mut col_pred = 0u32;
+    for _ in 0..num_pairs {
+        let (xd, len) = t.unary_dec[bits.peek12() as usize];
+        bits.pos += len as usize;
+        let hi = bits.unary()?;
+        let lo = bits.take(b)?;
+        let yd = (hi << b) | lo;
+        if yd > 0 {
+            col_pred = 0;
+        }
+        row += yd;
+        let col = col_pred + xd as u32;
+        if row >= k || col > 63 {
+            return Err(format!("pair (row {row}, col {col}) outside the matrix"));
+        }
+        out.push((row as u32, col as u8));
+        col_pred = col + 1;
+    }
+    Ok(out)
+}
+
+fn decode_window(stream: &[u8], lg_k: u8, phase: usize) -> Vec<u8> {
+    let t = tables();
+    let mut bits = Bits::new(stream);
+    let k = 1usize << lg_k;
+    let mut w = Vec::with_capacity(k);
+    for _ in 0..k {
+        let (byte, len) = t.byte_dec[phase][bits.peek12() as usize];
+        bits.pos += len as usize;
+        w.push(byte);
+    }
+    w
+}
+
+/// Rebuilds the k x 64 bit matrix from the image alone.
+pub fn decode_matrix(img: &[u8], p: &CpcPreamble) -> Option<Result<Vec<u64>, String>> {
+    if !tables().problems.is_empty() {
+        return Some(Err(format!("CPC tables are not self-consistent: {}", tables().problems[0])));
+    }
+    Some(decode_inner(img, p))
+}
+
+fn decode_inner(img: &[u8], p: &CpcPreamble) -> Result<Vec<u64>, String> {
+    let lg_k = p.lg_k;
+    let k = 1usize << lg_k;
+    let c = p.num_coupons as u64;
+    let mut m = vec![0u64; k];
+    let has_sv = p.flags & 8 != 0;
+    let has_w = p.flags & 16 != 0;
+    if !has_sv && !has_w {
+        return if c == 0 { Ok(m) } else { Err("no sections but a non-zero coupon count".into()) };
+    }
+    let wbytes = img.get(p.w_off..p.w_off + 4 * p.w_len_ints as usize).ok_or("window stream outside the image")?;
+    let svbytes = img.get(p.sv_off..p.sv_off + 4 * p.sv_len_ints as usize).ok_or("pair stream outside the image")?;
+    if !has_w {
+        // Sparse or Hybrid: every coupon is a pair
+        let pairs = decode_pairs(svbytes, c as usize, lg_k)?;
+        for (r, col) in pairs {
+            if m[r as usize] >> col & 1 == 1 {
+                return Err("duplicate pair".into());
+            }
+            m[r as usize] |= 1 << col;
+        }
+        return Ok(m);
+    }
+    // Pinned or Sliding: window at the offset implied by the coupon count
+    let kk = k as i64;
+    let tmp = 8 * c as i64 - 19 * kk;
+    let offset = if tmp < 0 { 0 } else { (tmp >> (lg_k + 3)) as u32 };
+    let phase = pseudo_phase(lg_k, c);
+    let window = decode_window(wbytes, lg_k, phase);
+    // default: early zone all ones
+    let early = if offset == 0 { 0 } else { (1u64 << offset) - 1 };
+    for (r, w) in window.iter().enumerate() {
+        m[r] = early | ((*w as u64) << offset);
+    }
+    if has_sv {
+        let pairs = decode_pairs(svbytes, p.num_sv as usize, lg_k)?;
+        for (r, col) in pairs {
+            let col = if offset == 0 {
+                // Pinned: columns were shifted down by 8
+                if col >= 56 {
+                    return Err("pinned pair column >= 56".into());
+                }
+                col + 8
+            } else {
+                // Sliding: undo the phase permutation, then the rotation by offset+8
+                if col >= 56 {
+                    return Err("sliding pair column >= 56".into());
+                }
+                let un = tables().perm_inv[phase & 15][col as usize];
+                ((un as u32 + offset + 8) & 63) as u8
+            };
+            // a pair flips the default of its cell: 0 in the early zone, 1 beyond the window
+            if (col as u32) >= offset && (col as u32) < offset + 8 {
+                return Err("pair inside the window".into());
+            }
+            m[r as usize] ^= 1 << col;
+        }
+    }
+    Ok(m)
 }
